@@ -720,7 +720,7 @@ Proof.
     try (inversion H; reflexivity);
     (destruct (c_pid c); [inversion H; reflexivity|]);
     (destruct (w_cache w); simpl in H;
-      [|destruct (fails f SProvCreate); simpl in H; [inversion H; reflexivity|]]);
+      [|destruct (fails f SProvCreate) as [[| |]|]; simpl in H; try (inversion H; reflexivity)]);
     destruct (fails f SPatchMeta) as [[| |]|]; destruct (fails f SPatchStatusL) as [[| |]|]; inversion H; reflexivity.
 Qed.
 
@@ -1132,7 +1132,7 @@ Proof.
   intros w c f. unfold claim_launch. cbv zeta.
   destruct (c_fin c); [|destruct (fails f SAddFin) as [[| |]|]]; simpl; try reflexivity;
     (destruct (c_pid c); [reflexivity|]);
-    (destruct (w_cache w); simpl; [|destruct (fails f SProvCreate); simpl; [reflexivity|]]);
+    (destruct (w_cache w); simpl; [|destruct (fails f SProvCreate) as [[| |]|]; simpl; try reflexivity]);
     destruct (fails f SPatchMeta) as [[| |]|]; destruct (fails f SPatchStatusL) as [[| |]|]; reflexivity.
 Qed.
 
@@ -1581,10 +1581,12 @@ Proof.
 Qed.
 
 Lemma launch_GA : forall w c f, w_claim w = Some c -> c_del c = None -> accounted w ->
+  delete_guard w (RClaim f) = true ->
   GA true (fst (step w (RClaim f))).
 Proof.
-  intros w c f Hc Hd HJ.
+  intros w c f Hc Hd HJ Hgd.
   unfold accounted, accounted_b in HJ. rewrite Hc in HJ.
+  unfold delete_guard, gives_up, recorded_or_absent_b in Hgd. rewrite Hc in Hgd.
   destruct w as [now ns cl twn ps vs s k]. simpl in *. subst cl.
   destruct c as [m fin del pid reg tgp an dr vo te]. simpl in *. subst del.
   unfold step, GA, accounted_b. simpl. unfold claim_reconcile. simpl.
@@ -1592,17 +1594,17 @@ Proof.
   unfold claim_launch. cbv zeta. simpl.
   destruct fin, pid, k, s; simpl in *; try discriminate;
     try (destruct (fails f SAddFin) as [[| |]|]; simpl);
-    try (destruct (fails f SProvCreate); simpl);
+    try (destruct (fails f SProvCreate) as [[| |]|]; simpl in *; try discriminate);
     try (destruct (fails f SPatchMeta) as [[| |]|]; simpl);
     try (destruct (fails f SPatchStatusL) as [[| |]|]; simpl);
     split; auto; discriminate.
 Qed.
 
 Lemma env_GA : forall w o, is_env o = true -> accounted w ->
-  (o = EnvDelClaim -> recorded_or_absent w) -> GA (is_some (w_claim w)) (env_step w o).
+  delete_guard w o = true -> GA (is_some (w_claim w)) (env_step w o).
 Proof.
   intros w o He HJ Hguard. unfold accounted, accounted_b in HJ. unfold GA, accounted_b.
-  unfold recorded_or_absent, recorded_or_absent_b in Hguard.
+  unfold delete_guard, recorded_or_absent_b in Hguard.
   destruct o; simpl in He; try discriminate; simpl;
     try (match goal with |- context[upd_node ?i ?g w] =>
            destruct (upd_node_frame i g w) as (_&_&_&X&Y&_); rewrite X, Y end;
@@ -1612,18 +1614,18 @@ Proof.
     try (split; [exact HJ|]; intros Hb Hn; rewrite Hn in Hb; discriminate);
     unfold upd_claim, set_inst, api_delete_claim; simpl;
     destruct (w_claim w) as [c|]; simpl in *; try (split; [reflexivity|discriminate]);
-    try (specialize (Hguard eq_refl));
     try (destruct (c_del c), (c_fin c), (c_pid c), (w_inst w); simpl in *; split; auto; try discriminate; intros; try discriminate; auto; fail).
   - destruct (c_pid c && negb match w_nodes w with [] => true | _ :: _ => false end); simpl; split; auto; discriminate.
 Qed.
 
-Lemma step_GA_claim : forall w f, accounted w -> GA (is_some (w_claim w)) (fst (step w (RClaim f))).
+Lemma step_GA_claim : forall w f, accounted w -> delete_guard w (RClaim f) = true ->
+  GA (is_some (w_claim w)) (fst (step w (RClaim f))).
 Proof.
-  intros w f HJ. unfold step. simpl is_env. cbv iota.
+  intros w f HJ Hgd. unfold step. simpl is_env. cbv iota.
   - destruct (w_claim w) as [c|] eqn:Ec.
     2:{ simpl. unfold claim_reconcile. rewrite Ec. simpl. split; [exact HJ|discriminate]. }
     destruct (c_del c) as [t|] eqn:Ed.
-    2:{ simpl is_some. pose proof (launch_GA w c f Ec Ed HJ) as X. unfold step in X. simpl in X. exact X. }
+    2:{ simpl is_some. pose proof (launch_GA w c f Ec Ed HJ Hgd) as X. unfold step in X. simpl in X. exact X. }
     simpl. unfold claim_reconcile. rewrite Ec. destruct (negb (c_managed c)).
     { simpl. split; [exact HJ|]. unfold set_inst. simpl. rewrite Ec. discriminate. }
     rewrite Ed. pose proof (claim_finalize_no_create w c t None f) as Hnc. pose proof (claim_finalize_nodelc w c t None f) as Hnd.
@@ -1643,25 +1645,24 @@ Proof.
       rewrite andb_false_r, orb_false_r in HJ. exact HJ.
 Qed.
 
-Lemma step_GA : forall w o, accounted w -> (o = EnvDelClaim -> recorded_or_absent w) ->
+Lemma step_GA : forall w o, accounted w -> delete_guard w o = true ->
   GA (is_some (w_claim w)) (fst (step w o)).
 Proof.
   intros w o HJ Hguard. unfold step. destruct (is_env o) eqn:He; [simpl; apply env_GA; assumption|].
   destruct o as [i f|f| | | | | | | | | | | | | |old f|old f]; simpl in He; try discriminate.
   - simpl. pose proof (node_GA w i f _ (GA_init w HJ)) as X. destruct (node_reconcile w i f) as [es r]. exact X.
-  - exact (step_GA_claim w f HJ).
+  - exact (step_GA_claim w f HJ Hguard).
   - simpl. pose proof (node_at_GA w old f _ (GA_init w HJ)) as X. destruct (node_reconcile_at w old f) as [es r]. exact X.
   - destruct (claim_lock w old) as [k|] eqn:Elk.
     + simpl. pose proof (claim_reconcile_at_locked w old f k Elk) as Hc.
       destruct (claim_reconcile_at w old f) as [[es r] k']. simpl in *.
       change (GA (is_some (w_claim w)) (apply_effs w es)). apply calm_effs_GA; [exact Hc|apply GA_init; exact HJ].
     + destruct (claim_reconcile_at_fresh w old f Elk) as [_ E].
-      pose proof (step_GA_claim w f HJ) as X. unfold step in X. simpl in X. simpl. rewrite E. exact X.
+      pose proof (step_GA_claim w f HJ Hguard) as X. unfold step in X. simpl in X. simpl. rewrite E. exact X.
 Qed.
 
 Lemma deletes_recorded_snoc : forall ops w o,
-  deletes_recorded w (ops ++ [o]) =
-  deletes_recorded w ops && match o with EnvDelClaim => recorded_or_absent_b (run w ops) | _ => true end.
+  deletes_recorded w (ops ++ [o]) = deletes_recorded w ops && delete_guard (run w ops) o.
 Proof.
   induction ops as [|a ops IH]; intros w o; simpl.
   - rewrite andb_true_r. reflexivity.
@@ -1672,7 +1673,7 @@ Lemma run_accounted : forall ops w, accounted w -> deletes_recorded w ops = true
 Proof.
   induction ops as [|o ops IH]; intros w HJ Hp; simpl in *; [exact HJ|].
   apply andb_prop in Hp. destruct Hp as [H1 H2]. apply IH; [|exact H2].
-  apply (proj1 (step_GA w o HJ ltac:(intros ->; exact H1))).
+  apply (proj1 (step_GA w o HJ H1)).
 Qed.
 
 (* no orphan, weakest premise: no assumption on faults, persistence or restarts — only that nobody deletes the
@@ -1682,8 +1683,7 @@ Lemma no_orphan_weakest_l : forall w0 ops o,
   orphaned (run w0 ops) (run w0 (ops ++ [o])) = false.
 Proof.
   intros w0 ops o HJ Hp. rewrite deletes_recorded_snoc in Hp. apply andb_prop in Hp. destruct Hp as [H1 H2].
-  rewrite run_snoc. apply GA_orphaned. apply step_GA; [apply run_accounted; assumption|].
-  intros ->. exact H2.
+  rewrite run_snoc. apply GA_orphaned. apply step_GA; [apply run_accounted; assumption|exact H2].
 Qed.
 
 (* ... and that premise is needed: deleting a claim that holds an unrecorded instance orphans it at the next
@@ -1802,3 +1802,11 @@ Proof.
       * apply orb_true_iff. right. rewrite Hr, Hi. reflexivity.
   - split; [discriminate | intros (n & E & _); discriminate].
 Qed.
+
+(* the same leak without any user: the persist patch fails, the controller restarts (launch cache lost), the next
+   Create answers InsufficientCapacity, Launch deletes the claim, finalize skips the provider *)
+Lemma restart_capacity_error_orphans_l :
+  let ops := [RClaim (Some (SPatchStatusL, KServer)); EnvRestart; RClaim (Some (SProvCreate, KNotFound))] in
+  accounted leak_w0 /\ deletes_recorded leak_w0 ops = false /\
+  orphaned (run leak_w0 ops) (run leak_w0 (ops ++ [RClaim None])) = true.
+Proof. vm_compute. repeat split; reflexivity. Qed.
